@@ -23,6 +23,7 @@ Definition cond_check (cd : cond) (v : cell) : bool :=
   match cd with
   | CVal CNone => is_none v
   | CVal (CNaN _) => is_nan v
+  | CVal (CInf _) => is_nan v            (* is_nan(value) is true for +-inf as well: the same arm *)
   | CVal x => py_in v [x]
   | CList l => py_in v l
   | CRegex p => match v with CStr s => substrb p s | _ => false end
